@@ -1,6 +1,7 @@
 package props
 
 import (
+	"fmt"
 	"regexp"
 	"sort"
 	"strings"
@@ -9,6 +10,7 @@ import (
 
 	"pgregory.net/rapid"
 
+	"verif/internal/gen"
 	"verif/internal/harness"
 	"verif/internal/pool"
 	"verif/internal/wire"
@@ -107,6 +109,60 @@ func checkC13(h *harness.H, ci interface{}) *harness.Failure {
 		}
 		return harness.Failf("[%s] the race detector reported %d data race(s); access sites: %s\nfirst report:\n%s\nprogram:\n%s", cfg, len(fps), strings.Join(uniq, "; "), short(first, 3000), c.Text)
 	}
+	report := func(where string, rep string) *harness.Failure {
+		fps := raceFingerprints(rep)
+		sort.Strings(fps)
+		first := rep
+		if i := strings.Index(rep[20:], "=================="); i > 0 {
+			first = rep[:i+40]
+		}
+		return harness.Failf("[%s] the race detector reported %d data race(s); access sites: %s\nfirst report:\n%s\nprogram:\n%s", where, len(fps), strings.Join(fps, "; "), short(first, 3000), c.Text)
+	}
+	// a process held up for longer than the interpreter's inactivity timer (50 ms) resumes after the
+	// run has been declared finished, while the host reads the finished run's results
+	est := uint64(2*(c.Spawns+c.Comm) + 3)
+	for k := uint64(0); k < 2; k++ {
+		req := &wire.Req{Op: "run", Text: c.Text, Mode: int(k), Monitor: (c.Seed+k)%2 == 0, Procs: 4, YieldSeed: c.Seed + 17*k + 1, Entry: "init",
+			StallMs: 120, StallAt: 1 + (c.Seed/7+k*5)%est, TimeoutMs: 5000, PostAPI: true}
+		res := h.Call(1, req, 60*time.Second)
+		h.S.Count("runs:stalled-process")
+		if res.Outcome != pool.OK {
+			h.S.Count("stalled_run_" + res.Outcome.String())
+			if h.S.Counters["stalled_run_"+res.Outcome.String()] <= 2 {
+				h.S.Note("stalled run " + res.Outcome.String() + ": " + harness.Brief(res.Stderr) + "\n" + c.Text)
+			}
+			h.Worker(1).RaceReports()
+			return &harness.Failure{Inconclusive: true, Msg: "run " + res.Outcome.String()}
+		}
+		if rep := h.Worker(1).RaceReports(); rep != "" {
+			return report(fmt.Sprintf("%s via InitializeProcesses, one process stalled 120 ms at hook visit %d", modeName[int(k)], req.StallAt), rep)
+		}
+	}
+	if c.Untyped != "" {
+		ms := []int{0, 1, 2}
+		if c.Contraction {
+			ms = []int{0, 1}
+		}
+		for _, m := range ms {
+			req := &wire.Req{Op: "run", Text: c.Untyped, Mode: m, Monitor: true, Procs: 4, YieldSeed: c.Seed%99991 + uint64(m) + 1, NoCheck: true, TimeoutMs: 5000, PostAPI: true}
+			res := h.Call(1, req, 60*time.Second)
+			h.S.Count("runs:unchecked-inlined:" + modeName[m])
+			if res.Outcome != pool.OK {
+				// what an unchecked program does is not C13's business; only race reports count
+				h.S.Count("unchecked_run_" + res.Outcome.String())
+				h.Worker(1).RaceReports()
+				continue
+			}
+			if res.Resp != nil && !res.Resp.ParseOK {
+				h.S.Count("unchecked_variant_does_not_parse")
+			}
+			if rep := h.Worker(1).RaceReports(); rep != "" {
+				f := report(modeName[m]+", unchecked, cuts inlined, monitor attached", rep)
+				f.Msg += "\nvariant with inlined cuts:\n" + c.Untyped
+				return f
+			}
+		}
+	}
 	return nil
 }
 
@@ -116,9 +172,20 @@ func TestC13(t *testing.T) {
 		New:   func() interface{} { return &caseRun{} },
 		Setup: func(h *harness.H) { h.Race = true },
 		Gen: func(rt *rapid.T, h *harness.H) interface{} {
-			c := genRunCase(rt, h, 15)
+			progHook = func(g *gen.ProgGen) { g.FwdPol = true }
+			c, p, g := genRunCaseP(rt, h, 15)
 			if c == nil {
 				return nil
+			}
+			if p != nil && !g.LocalNames && !c.Contraction {
+				// (not with contraction: duplicating a process needs the polarities of its free names,
+				// which only the typechecker provides)
+				// the dialect of the maintainers' run-time tests: cut bodies written out inline, the
+				// program executed without the typechecker (which refuses such cuts)
+				if q, n := (gen.D{T: rt}).InlineCuts(p); n > 0 {
+					c.Untyped = q.Text(nil)
+					h.S.Count("with_inlined_cut_variant")
+				}
 			}
 			h.S.Sample(map[string]interface{}{"text": c.Text, "origin": c.Origin})
 			return c
